@@ -52,6 +52,7 @@ pub fn judge_nocover<T: Viewed>(r: Result<T, Rec>, ex: &Expect, p: &Path) {
             oblige!(agree_on(&e, &ex.log, is_missing_ev), "C04,C07,C08:missing_reports");
             oblige!(agree_on(&e, &ex.log, is_unknown_key_ev), "C04,C07,C09:unknown_key_reports");
             oblige!(agree_on(&e, &ex.log, is_user_fn_ev), "C11:user_function_errors_handed_over");
+            oblige!(agree_on_fn_handover(&e, &ex.log), "C04,C11:user_function_errors_handed_over_at_the_field_or_container_location");
             oblige!(!no_stop(&e) || eq_counters(&counters(), &ex.counters), "C11:user_functions_run_exactly_once_on_good_values");
         }
     }
@@ -322,6 +323,69 @@ pub fn derive_nest() {
     judge(r, &ex, &p);
 }
 
+
+// ---- T10: defaults declared *before* required fields (the per-field token lists of the derive are zipped by index) ----
+#[derive(Deserr)]
+pub struct DefFirst {
+    #[deserr(default = Leaf(41))]
+    pub dddd: Leaf,
+    pub rrrr: Leaf,
+    #[deserr(default)]
+    pub eeee: Option<Leaf>,
+    pub ssss: Option<Leaf>,
+}
+impl Viewed for DefFirst { fn slots(&self) -> [u64; MAXF] { [lv(&self.dddd), lv(&self.rrrr), ov(&self.eeee), ov(&self.ssss), 0, 0] } }
+pub static D_DEFFIRST: [&str; 5] = ["dddd", "rrrr", "eeee", "ssss", "Dddd"];
+pub static S_DEFFIRST: StructDesc = StructDesc { fields: &[
+    FieldDesc { key: 0, presence: Presence::Default(42), ty: FTy::Leaf, missing_fn: false, conv: Conv::None, map: None },
+    FieldDesc { key: 1, presence: Presence::Required, ty: FTy::Leaf, missing_fn: false, conv: Conv::None, map: None },
+    FieldDesc { key: 2, presence: Presence::Default(0), ty: FTy::OptLeaf, missing_fn: false, conv: Conv::None, map: None },
+    FieldDesc { key: 3, presence: Presence::Required, ty: FTy::OptLeaf, missing_fn: false, conv: Conv::None, map: None },
+], deny: Deny::No, validate: None };
+pub fn derive_deffirst_2() { run_struct::<DefFirst>(&S_DEFFIRST, &D_DEFFIRST, 2) }
+/// native enumeration only
+pub fn derive_deffirst_3() { run_struct::<DefFirst>(&S_DEFFIRST, &D_DEFFIRST, 3) }
+
+// ---- T11: a field-level error type (`error = Rec2` on a field), with and without a conversion function ----------------
+#[derive(Deserr)]
+#[deserr(error = Rec)]
+pub struct Ferr10 {
+    #[deserr(try_from(Leaf) = conv_try -> Foreign, error = Rec2)]
+    pub aaaa: Wrapped,
+    #[deserr(error = Rec2)]
+    pub bbbb: Leaf,
+}
+impl Viewed for Ferr10 { fn slots(&self) -> [u64; MAXF] { [self.aaaa.0, lv(&self.bbbb), 0, 0, 0, 0] } }
+pub static S_FERR10: StructDesc = StructDesc { fields: &[
+    FieldDesc { key: 0, presence: Presence::Required, ty: FTy::Leaf, missing_fn: false, conv: Conv::TryFrom(1), map: None },
+    FieldDesc { key: 1, presence: Presence::Required, ty: FTy::Leaf, missing_fn: false, conv: Conv::None, map: None },
+], deny: Deny::No, validate: None };
+pub fn derive_ferr10_2() { run_struct::<Ferr10>(&S_FERR10, &D_CONV8, 2) }
+
+// ---- T12: internally tagged enum with deny_unknown_fields (the accepted list of a variant never contains the tag) ------
+#[derive(Deserr)]
+#[deserr(tag = "kind", deny_unknown_fields)]
+pub enum TagDeny { Unit, VarB { xxxx: Leaf }, VarE {} }
+impl Viewed for TagDeny {
+    fn slots(&self) -> [u64; MAXF] { match self { TagDeny::Unit => [1, 0, 0, 0, 0, 0], TagDeny::VarB { xxxx } => [2, lv(xxxx), 0, 0, 0, 0], TagDeny::VarE {} => [3, 0, 0, 0, 0, 0] } }
+}
+pub static D_TAGDENY: [&str; 6] = ["kind", "Unit", "VarB", "VarE", "xxxx", "yyyy"];
+pub static S_TD_B: StructDesc = StructDesc { fields: &[FieldDesc { key: 4, presence: Presence::Required, ty: FTy::Leaf, missing_fn: false, conv: Conv::None, map: None }], deny: Deny::Default, validate: None };
+pub static S_TD_E: StructDesc = StructDesc { fields: &[], deny: Deny::Default, validate: None };
+pub static E_TAGDENY: EnumDesc = EnumDesc { tag: 0, variants: &[(1, VariantDesc::Unit), (2, VariantDesc::Named(&S_TD_B)), (3, VariantDesc::Named(&S_TD_E))] };
+fn tagdeny_run(n: u8) {
+    let o = ValuePointerRef::Origin; let l = o.push_index(1);
+    let p = Path::ROOT.idx(1);
+    let r = <TagDeny as Deserr<Rec>>::deserialize_from_value::<KV>(to_value(Node::Map(0, n)), l);
+    let mut ex = Expect::EMPTY;
+    reference::enum_spec(&E_TAGDENY, Node::Map(0, n), p, &mut ex);
+    match (&r, ex.log.n) { (Err(e), k) if k > 0 => { oblige!(agree_on(e, &ex.log, is_tag_ev), "C04,C10:tag_and_variant_reports"); } _ => {} }
+    judge(r, &ex, &p);
+}
+/// tag first / tag last, one other member (a field key, an unknown key, or the tag key again)
+pub fn derive_tagdeny_first() { reset_all(&D_TAGDENY); put_entry(0, 0, Node::Str(1 + nd::below(3))); put_entry(1, match nd::below(3) { 0 => 4, 1 => 5, _ => 0 }, any_val()); tagdeny_run(2); }
+pub fn derive_tagdeny_last() { reset_all(&D_TAGDENY); put_entry(0, match nd::below(3) { 0 => 4, 1 => 5, _ => 0 }, any_val()); put_entry(1, 0, Node::Str(1 + nd::below(3))); tagdeny_run(2); }
+
 // ---- C15: member order never changes the outcome (relational: same members, both orders, keep-going) -----------
 fn same_multiset(a: &Rec, b: &Rec) -> bool {
     if a.n != b.n { return false; }
@@ -354,20 +418,47 @@ pub fn order_camel() { order_body::<Camel>(&D_CAMEL, nd::below(6), any_val(), nd
 pub fn order_tagged() { order_body::<Tagged>(&D_TAGGED, 0, any_tag_val(), any_field_key(), any_val()) }
 pub fn order_conv8() { order_body::<Conv8>(&D_CONV8, nd::below(4), any_val(), nd::below(4), any_val()) }
 
+
+/// three members, every one of the 6 orders (native enumeration only; the 2-member bodies above are also Kani harnesses)
+fn order3_body<T: Deserr<Rec> + Viewed>(dict: &'static [&'static str], k: [u8; 3], v: [Node; 3]) {
+    nd::assume(k[0] != k[1] && k[0] != k[2] && k[1] != k[2]);
+    const PERMS: [[usize; 3]; 6] = [[0, 1, 2], [0, 2, 1], [1, 0, 2], [1, 2, 0], [2, 0, 1], [2, 1, 0]];
+    let o = ValuePointerRef::Origin; let l = o.push_index(1);
+    let run = |p: &[usize; 3]| { reset_all(dict); rec::set_policy(1); let mut i = 0; while i < 3 { put_entry(i as u8, k[p[i]], v[p[i]]); i += 1; } <T as Deserr<Rec>>::deserialize_from_value::<KV>(to_value(Node::Map(0, 3)), l) };
+    let first = run(&PERMS[0]);
+    let mut q = 1;
+    while q < 6 {
+        let other = run(&PERMS[q]);
+        match (&first, &other) {
+            (Ok(a), Ok(b)) => { oblige!(eq_slots(&a.slots(), &b.slots()), "C15:same_value_for_both_member_orders"); }
+            (Err(a), Err(b)) => { oblige!(same_multiset(a, b), "C15:same_set_of_reports_for_both_member_orders"); }
+            _ => { oblige!(false, "C15:same_outcome_for_both_member_orders"); }
+        }
+        q += 1;
+    }
+}
+pub fn order_camel_3() { order3_body::<Camel>(&D_CAMEL, [nd::below(6), nd::below(6), nd::below(6)], [any_val(), any_val(), any_val()]) }
+pub fn order_lower_3() { order3_body::<Lower>(&D_LOWER, [nd::below(5), nd::below(5), nd::below(5)], [any_val(), any_val(), any_val()]) }
+pub fn order_deffirst_3() { order3_body::<DefFirst>(&D_DEFFIRST, [nd::below(5), nd::below(5), nd::below(5)], [any_val(), any_val(), any_val()]) }
+pub fn order_tagged_3() { order3_body::<Tagged>(&D_TAGGED, [0, any_field_key(), any_field_key()], [any_tag_val(), any_val(), any_val()]) }
+pub fn order_tagdeny_3() { order3_body::<TagDeny>(&D_TAGDENY, [0, 4, 5], [Node::Str(1 + nd::below(3)), any_val(), any_val()]) }
+
 pub fn registry() -> Vec<(&'static str, crate::Body)> {
     vec![("derive_plain_2", derive_plain_2 as crate::Body), ("derive_camel_2", derive_camel_2), ("derive_lower_2", derive_lower_2), ("derive_deny4_2", derive_deny4_2),
          ("derive_fns5_2", derive_fns5_2), ("derive_conv8_2", derive_conv8_2), ("derive_conv8_3", derive_conv8_3), ("derive_cont9", derive_cont9),
          ("derive_tagged_first", derive_tagged_first), ("derive_tagged_last", derive_tagged_last), ("derive_tagged_absent", derive_tagged_absent), ("derive_tagged_not_a_map", derive_tagged_not_a_map),
-         ("derive_units", derive_units), ("derive_nest", derive_nest), ("order_camel", order_camel), ("order_tagged", order_tagged), ("order_conv8", order_conv8)]
+         ("derive_units", derive_units), ("derive_nest", derive_nest), ("derive_deffirst_2", derive_deffirst_2), ("derive_deffirst_3", derive_deffirst_3), ("derive_ferr10_2", derive_ferr10_2),
+         ("derive_tagdeny_first", derive_tagdeny_first), ("derive_tagdeny_last", derive_tagdeny_last), ("order_camel", order_camel), ("order_tagged", order_tagged), ("order_conv8", order_conv8),
+         ("order_camel_3", order_camel_3), ("order_lower_3", order_lower_3), ("order_deffirst_3", order_deffirst_3), ("order_tagged_3", order_tagged_3), ("order_tagdeny_3", order_tagdeny_3)]
 }
 
 #[cfg(kani)]
 mod proofs {
     macro_rules! proof { ($($n:ident),*) => { $( mod $n { #[kani::proof] #[kani::unwind(10)] #[kani::stub(alloc::fmt::format, crate::fake_format)] fn check() { super::super::$n() } } )* } }
     proof!(derive_plain_2, derive_camel_2, derive_lower_2, derive_deny4_2, derive_fns5_2, derive_conv8_2, derive_cont9,
-           derive_units, derive_nest, order_camel, order_conv8);
+           derive_units, derive_nest, order_camel, order_conv8, derive_deffirst_2, derive_ferr10_2);
     macro_rules! proof14 { ($($n:ident),*) => { $( mod $n { #[kani::proof] #[kani::unwind(14)] #[kani::stub(alloc::fmt::format, crate::fake_format)] fn check() { super::super::$n() } } )* } }
-    proof14!(derive_tagged_first, derive_tagged_last, derive_tagged_absent, derive_tagged_not_a_map, order_tagged);
+    proof14!(derive_tagged_first, derive_tagged_last, derive_tagged_absent, derive_tagged_not_a_map, order_tagged, derive_tagdeny_first, derive_tagdeny_last);
     /// thorough tier only
     mod derive_conv8_3 { #[kani::proof] #[kani::unwind(10)] #[kani::stub(alloc::fmt::format, crate::fake_format)] fn check() { super::super::derive_conv8_3() } }
 }
